@@ -2,6 +2,7 @@
 use vstd::std_specs::cmp::{OrdSpec, PartialOrdSpec};
 use core::cmp::Ordering;
 use std::ops::{Add, Sub};
+use std::cmp::max;
 
 // [trusted:stand-in] ic_btc_types::BlockHash is `[u8; 32]` with derived equality; only equality is used here.
 #[derive(PartialEq, Eq, Clone, Copy, Structural, Debug)]
@@ -24,6 +25,12 @@ pub assume_specification<T: std::cmp::Ord>[std::cmp::max](a: T, b: T) -> (r: T)
 pub assume_specification<T>[<[T]>::reverse](s: &mut [T])
     ensures final(s)@ == old(s)@.reverse(),
 ;
+
+// R6: panic!(..) / unreachable!(..) in no-trap mode: a proof obligation that the call site is unreachable
+#[verifier::external_body]
+fn vp_trap() -> !
+    requires false,
+{ panic!() }
 
 fn vp_assert(b: bool)
     requires b,
